@@ -29,3 +29,6 @@ func Park() {}
 
 // Tier is 0 in the quick tier and 1 in the thorough tier.
 func Tier() int { return 0 }
+
+// Settle is a no-op under the engine (WaitAll runs every thread to completion).
+func Settle(cond func() bool) {}
